@@ -444,7 +444,8 @@ func (u *Unit) Prove(st *State, name, class string, tags []string, pos token.Pos
 		}
 	}
 	o.Failures = append(o.Failures, f)
-	st.Assume(goal)
+	// the goal is not assumed after a failure: assuming a refuted fact could make the
+	// rest of the path vacuous
 	return false
 }
 
